@@ -55,6 +55,8 @@ pub struct C12Stream {
     mapped: Option<Db>,
     entries: Vec<Entry>,
     gen_idx: u64,
+    /// hook-level `DbValueIndex` ops (no-ops unless the tree has the hook)
+    vidx: crate::vidx::VidxState,
 }
 
 fn kind_of(v: &DbValue) -> usize {
@@ -124,7 +126,7 @@ fn flatten<T>(r: Result<Result<T, DbError>, Fail>) -> Result<T, Bad> {
 impl C12Stream {
     pub fn new(out: &std::path::Path) -> Self {
         let dir = out.join(format!("dbs.{}", std::process::id()));
-        C12Stream { dir, mem: None, file: None, mapped: None, entries: vec![], gen_idx: 0 }
+        C12Stream { dir, mem: None, file: None, mapped: None, entries: vec![], gen_idx: 0, vidx: Default::default() }
     }
 
     fn path(&self, name: &str) -> String {
@@ -137,6 +139,7 @@ impl C12Stream {
         let _ = guarded(move || drop((m, f, mm)));
         let _ = std::fs::remove_dir_all(&self.dir);
         self.entries.clear();
+        self.vidx.reset();
     }
 
     /// opens whatever is not open; returns the first failure as (variant, problem)
@@ -343,6 +346,18 @@ impl C12Stream {
             lines.push(format!("kv {} {}", text(&k), text(&v)));
         }
         lines.push("reopen".to_string());
+        if crate::vidx::ENABLED {
+            // hook level: the 16-byte DbValueIndex itself (store + load), then damaged indexes
+            let mut stored = vec![];
+            for _ in 0..rng.range(1, 4) {
+                let v = gen_value(rng, false);
+                lines.push(format!("vrt {}", text(&v)));
+                stored.push(v);
+            }
+            for _ in 0..rng.range(0, 3) {
+                lines.push(format!("vld {}", crate::val::hex(&gen_damaged_index(rng))));
+            }
+        }
         lines
     }
 
@@ -380,6 +395,36 @@ impl Drop for C12Stream {
     fn drop(&mut self) {
         self.close_all();
     }
+}
+
+/// a 16-byte `DbValueIndex` that `store_db_value` may or may not be able to produce: random type
+/// nibble (0..15), random size nibble, index 0 / small (existing or not) / random, random payload
+fn gen_damaged_index(rng: &mut Rng) -> [u8; 16] {
+    let mut b = [0u8; 16];
+    let ty = if rng.chance(3, 4) { rng.range(1, 9) as u8 } else { rng.below(16) as u8 };
+    let size = match rng.below(6) {
+        0 => 0,
+        1 => 8,
+        2 => 15,
+        _ => rng.below(16) as u8,
+    };
+    match rng.below(4) {
+        0 => {}
+        1 => b[0] = rng.range(1, 6) as u8,
+        2 => {
+            for x in b.iter_mut().take(15) {
+                *x = rng.below(256) as u8;
+            }
+        }
+        _ => {
+            // valid UTF-8 / ascii payload
+            for x in b.iter_mut().take(15) {
+                *x = b'a' + rng.below(26) as u8;
+            }
+        }
+    }
+    b[15] = (ty << 4) | size;
+    b
 }
 
 fn bad_op(ctx: &mut Ctx) -> String {
@@ -543,6 +588,23 @@ impl Stream for C12Stream {
             ("reopen", 1) => {
                 ctx.bump("op:reopen");
                 self.op_reopen(ctx)
+            }
+            ("vrt", 2) => {
+                ctx.bump("op:vrt");
+                match self.vidx.op_vrt(t[1], ctx) {
+                    Some(o) => o,
+                    None => bad_op(ctx),
+                }
+            }
+            ("vld", 2) => {
+                ctx.bump("op:vld");
+                match self.vidx.op_vld(t[1], ctx) {
+                    Some(o) => {
+                        ctx.bump(&format!("vld:{}", o.split([' ', ':']).next().unwrap_or("?")));
+                        o
+                    }
+                    None => bad_op(ctx),
+                }
             }
             _ => {
                 ctx.bump("op:unknown");
